@@ -40,7 +40,7 @@ func init() {
 			"(D6) message-field agreement: the sealer fills Cid/DevicePk/Counter/Sig/EncryptedPayload of the push message from id/headers.DevicePk/headers.Counter/headers.Sig/env.Message, seals the marshalled push message with the group secret (the opener opens with the group's shared secret, the envelope's own Nonce and Box) and stores in the envelope the nonce and box of that very Seal call; the headers rebuilt on the push path map field to same-named field; helpers shared by the log path and the push path receive device key, group key and counter in the same argument positions on both. " +
 			"(D7) atomic window update: behind UpdateOutOfStoreGroupReferences the read of the recorded first/last counters, every Put/Delete of a reference and the write of the new first/last record run with the store's message mutex write-locked on every call path, and the mutex is not released between two of them (read-modify-write of the window in one critical section). " +
 			"(D8) the window follows authenticated messages only: every call of UpdateOutOfStoreGroupReferences with a message's Counter is dominated on every call path by the accepting side of the call that opened and authenticated that message (OpenEnvelopePayload on the log path, a function whose success returns all pass an accepted Verify on the push path). " +
-			"(D9) registration window: a call of UpdateOutOfStoreGroupReferences whose counter is not a message's Counter must read it from the very DeviceChainKey value that the same function writes to the chain-key namespace before the call (or from a chain key read from the store): the window is centred on the persisted, window-advanced counter, which is what puts every precomputed key of a newly registered sender inside it; a counter of any other origin is an analysis failure. " +
+			"(D9) registration window: a call of UpdateOutOfStoreGroupReferences whose counter is not a message's Counter must read it from the very DeviceChainKey value that is written to the chain-key namespace before the call (or from a chain key read from the store); the written value is tracked through module helpers (a helper that stores its parameter: the argument; a helper that stores a key it computed: the value it returns on every success return, nil meaning nothing written), to depth 3: the window is centred on the persisted, window-advanced counter, which is what puts every precomputed key of a newly registered sender inside it; a counter of any other origin is an analysis failure. " +
 			"D2's Verify clauses are judged per push-path call site: parameters of a (shared) helper are mapped to the arguments of the call chain that starts at the push entry point, never to the union of all callers. " +
 			"Not decided: the window statement for all histories (loop arithmetic over runtime data), absence of network access, that NaCl/Ed25519 reject every altered bit, equality of payload bytes for all sizes.",
 		Trusted:     []string{"nacl/secretbox, Ed25519 (libp2p crypto), HKDF/SHA3", "go/packages+go/ssa (x/tools v0.29.0)", "go-datastore Get/Put/Delete semantics", "effects identified by the namespace constants of pkg/secretstore"},
@@ -2028,25 +2028,30 @@ func c14D9(c *Ctx, ei *effectInfo, updR *ssa.Function) {
 				c.undecided("D9", construct, posOf(u), "the counter given to UpdateOutOfStoreGroupReferences is neither a message's Counter nor a chain key's Counter: its relation to the keys held by the store is not modelled")
 				continue
 			}
-			// the chain-key writes of this function that can run before the call
+			// the chain-key writes of this function that can run before the call, each resolved to
+			// the chain-key value it stores, expressed in this function's terms (through helpers
+			// that store a parameter, and helpers that return what they stored)
 			var written []ssa.Value
-			nSites := 0
+			nSites, modelled, whyNot := 0, true, ""
 			for _, s := range ei.sitesWith(fn, putChain) {
 				if !instrReaches(s.Instr.(ssa.Instruction), u.(ssa.Instruction)) {
 					continue
 				}
 				nSites++
-				for _, a := range s.Instr.Common().Args {
-					if isNamed(a.Type(), pkgTypes, "DeviceChainKey") {
-						written = append(written, a)
-					}
+				vals, why := c14StoredAtSite(ei, fn, s, 0)
+				if why != "" {
+					modelled, whyNot = false, why
+					continue
 				}
+				written = append(written, vals...)
 			}
 			switch {
 			case nSites == 0 && isStoredChainKey(w, base):
 				c.ok("D9", construct, posOf(u), "the window is centred on the counter of the chain key read from the store")
 			case nSites == 0:
 				c.fail("D9", construct, posOf(u), "the window is centred on the counter of a chain key that this function neither persisted nor read from the store")
+			case !modelled:
+				c.undecided("D9", construct, posOf(u), "cannot tell which chain-key value is written to the chain-key namespace before the window is set: %s", whyNot)
 			default:
 				same := len(written) > 0
 				for _, wv := range written {
@@ -2062,4 +2067,90 @@ func c14D9(c *Ctx, ei *effectInfo, updR *ssa.Function) {
 	if n == 0 {
 		c.undecided("D9", fnName(updR)+"+window-counter-origin", updR.Pos(), "no call of UpdateOutOfStoreGroupReferences outside message delivery found (registration no longer creates the window?)")
 	}
+}
+
+// c14StoredAtSite: the DeviceChainKey value(s) that the effect site s of fn (a site performing
+// Put on the chain-key namespace) stores, as SSA values of fn. A direct Put stores the message
+// given to proto.Marshal; a call stores what its callee stores: a callee parameter maps to the
+// call's argument, a value local to the callee maps to the call's result when the callee
+// returns exactly that value (or nil: nothing written) on every success return. why != ""
+// when a step is not modelled.
+func c14StoredAtSite(ei *effectInfo, fn *ssa.Function, s effectSite, depth int) (vals []ssa.Value, why string) {
+	putChain := eff("Put", nsChainKey)
+	if depth > 3 {
+		return nil, "call chain to the chain-key write deeper than 3"
+	}
+	if s.Direct {
+		args := s.Instr.Common().Args
+		if len(args) < 3 {
+			return nil, "unexpected datastore Put arity in " + fnName(fn)
+		}
+		v := stripConv(args[2])
+		if ex, ok := v.(*ssa.Extract); ok {
+			v = ex.Tuple
+		}
+		if mc, ok := v.(*ssa.Call); ok && calleeKey(mc.Common()) == "google.golang.org/protobuf/proto.Marshal" && len(mc.Common().Args) == 1 {
+			if m := stripConv(mc.Common().Args[0]); isNamed(m.Type(), pkgTypes, "DeviceChainKey") {
+				return []ssa.Value{m}, ""
+			}
+		}
+		return nil, "the bytes written by " + fnName(fn) + " are not a marshalled DeviceChainKey"
+	}
+	call, ok := s.Instr.(*ssa.Call)
+	callee := staticCallee(s.Instr.Common())
+	if !ok || callee == nil || callee.Blocks == nil || !inModule(callee) {
+		return nil, "the chain-key write is behind a dynamic call in " + fnName(fn)
+	}
+	for _, cs := range ei.sitesWith(callee, putChain) {
+		inner, w := c14StoredAtSite(ei, callee, cs, depth+1)
+		if w != "" {
+			return nil, w
+		}
+		for _, iv := range inner {
+			iv = c14Resolve(stripConv(iv), 0)
+			if p, isParam := iv.(*ssa.Parameter); isParam && p.Parent() == callee {
+				if idx := c14ParamIndex(p); idx >= 0 && idx < len(call.Common().Args) {
+					vals = append(vals, call.Common().Args[idx])
+					continue
+				}
+				return nil, "parameter of " + fnName(callee) + " not matched to an argument"
+			}
+			// a value computed inside the callee: it must be what the callee returns
+			ridx := -1
+			for i := 0; i < callee.Signature.Results().Len(); i++ {
+				if isNamed(callee.Signature.Results().At(i).Type(), pkgTypes, "DeviceChainKey") {
+					ridx = i
+				}
+			}
+			if ridx < 0 {
+				return nil, fnName(callee) + " stores a chain key it computed itself and does not return it"
+			}
+			returned := false
+			for _, r := range returnsOf(callee) {
+				if !isSuccessReturn(r) {
+					continue
+				}
+				rv := stripConv(retResults(r)[ridx])
+				switch {
+				case isNilConst(rv):
+				case c14SameObject(rv, iv):
+					returned = true
+				default:
+					return nil, fnName(callee) + " has a success return that yields another chain key than the one it stored"
+				}
+			}
+			if !returned {
+				return nil, fnName(callee) + " never returns the chain key it stored"
+			}
+			rv := resultValue(call, ridx)
+			if rv == nil {
+				return nil, "the chain key returned by " + fnName(callee) + " is discarded in " + fnName(fn)
+			}
+			vals = append(vals, rv)
+		}
+	}
+	if len(vals) == 0 {
+		return nil, "no chain-key write found inside " + fnName(callee)
+	}
+	return vals, ""
 }
